@@ -219,6 +219,7 @@ pub fn run_c07(tier: Tier) -> i32 {
                                 client_mif: 0,
                                 zero_trace_id: false,
                                 head_untraced: false,
+                                head_unsampled: false,
                             });
                             // a traced server behind an untraced caller (the request then
                             // carries the all-zero trace id): the handler's ambient context
@@ -236,6 +237,7 @@ pub fn run_c07(tier: Tier) -> i32 {
                                     client_mif: 0,
                                     zero_trace_id: true,
                                     head_untraced: true,
+                                    head_unsampled: false,
                                 });
                             }
                         }
@@ -518,6 +520,7 @@ pub fn configs(prop: HProp, tier: Tier) -> Vec<ChainCfg> {
                                 client_mif: 0,
                                 zero_trace_id: false,
                                 head_untraced: false,
+                                head_unsampled: false,
                             });
                         }
                     }
@@ -540,6 +543,7 @@ pub fn configs(prop: HProp, tier: Tier) -> Vec<ChainCfg> {
                 client_mif: 0,
                 zero_trace_id: false,
                 head_untraced: false,
+                head_unsampled: false,
             };
             out.push(mk(None));
             for k in 0..=(if tier == Tier::Quick { 2 } else { 3 }) {
@@ -563,6 +567,7 @@ pub fn configs(prop: HProp, tier: Tier) -> Vec<ChainCfg> {
                     client_mif: 0,
                     zero_trace_id: true,
                     head_untraced: false,
+                    head_unsampled: false,
                 });
             }
         }
@@ -585,6 +590,7 @@ pub fn configs(prop: HProp, tier: Tier) -> Vec<ChainCfg> {
                         client_mif: 0,
                         zero_trace_id: false,
                         head_untraced: false,
+                        head_unsampled: false,
                     });
                 }
             }
@@ -609,6 +615,7 @@ pub fn configs(prop: HProp, tier: Tier) -> Vec<ChainCfg> {
                         client_mif: 0,
                         zero_trace_id: false,
                         head_untraced: false,
+                        head_unsampled: false,
                     });
                     // the abandoned call fills its client's in-flight limit (seeded change C04d:
                     // cancellations were held back while the client was at capacity)
@@ -624,6 +631,7 @@ pub fn configs(prop: HProp, tier: Tier) -> Vec<ChainCfg> {
                         client_mif: 1,
                         zero_trace_id: false,
                         head_untraced: false,
+                        head_unsampled: false,
                     });
                 }
             }
@@ -643,6 +651,7 @@ pub fn configs(prop: HProp, tier: Tier) -> Vec<ChainCfg> {
             client_mif: 0,
             zero_trace_id: false,
             head_untraced: false,
+            head_unsampled: false,
         });
     }
     out
@@ -666,7 +675,13 @@ pub fn c18_otel_grid(tier: Tier) -> (u64, Vec<(String, String)>) {
             for kind in [HopKind::Mem, HopKind::Json, HopKind::Bincode] {
                 for last_finishes in [true, false] {
                     for abandon_after in [None, Some(1), Some(2), Some(3)] {
+                      // regimes: everything traced; or only the servers traced, behind an
+                      // untraced caller whose context is Sampled / Unsampled
+                      for (head_untraced, head_unsampled) in [(false, false), (true, false), (true, true)] {
                         if tier == Tier::Quick && kind == HopKind::Bincode && depth == 3 {
+                            continue;
+                        }
+                        if head_untraced && abandon_after.map(|k| k != 2).unwrap_or(false) {
                             continue;
                         }
                         let cfg = ChainCfg {
@@ -680,12 +695,13 @@ pub fn c18_otel_grid(tier: Tier) -> (u64, Vec<(String, String)>) {
                             own_clients: false,
                             client_mif: 0,
                             zero_trace_id: false,
-                            head_untraced: false,
+                            head_untraced,
+                            head_unsampled,
                         };
                         let e = execute_in_place(&cfg, &[]);
                         cells += 1;
                         let f = hfacts(&e.recs);
-                        let label = format!("[otel] depth {depth} {kind:?} last_finishes={last_finishes} abandon_after={abandon_after:?}");
+                        let label = format!("[otel{}] depth {depth} {kind:?} last_finishes={last_finishes} abandon_after={abandon_after:?}", if head_untraced { if head_unsampled { ", untraced caller, Unsampled" } else { ", untraced caller, Sampled" } } else { "" });
                         for p in &f.panics {
                             fails.push(("C18-otel-panic".into(), format!("{label}: {p}")));
                         }
@@ -722,6 +738,7 @@ pub fn c18_otel_grid(tier: Tier) -> (u64, Vec<(String, String)>) {
                                 }
                             }
                         }
+                      }
                     }
                 }
             }
